@@ -404,6 +404,20 @@ where
     (nodes, random_dead_node_opt, random_seed_node_opt)
 }
 
+#[cfg(feature = "verif")]
+pub(crate) fn verif_select_nodes_for_gossip<R>(
+    rng: &mut R,
+    peer_nodes: HashSet<SocketAddr>,
+    live_nodes: HashSet<SocketAddr>,
+    dead_nodes: HashSet<SocketAddr>,
+    seed_nodes: HashSet<SocketAddr>,
+) -> (Vec<SocketAddr>, Option<SocketAddr>, Option<SocketAddr>)
+where
+    R: Rng + ?Sized,
+{
+    select_nodes_for_gossip(rng, peer_nodes, live_nodes, dead_nodes, seed_nodes)
+}
+
 /// Selects a dead node to gossip with, with some probability.
 fn select_dead_node_to_gossip_with<R>(
     rng: &mut R,
